@@ -20,6 +20,7 @@ type c15Result struct {
 	sig    string
 	detail string
 	trace  map[string]any
+	sample map[string]any
 }
 
 func (r *c15Run) trace() map[string]any {
@@ -245,9 +246,14 @@ func TestVerifC15Seq(t *testing.T) {
 		if cfg.side == "in" {
 			alpha = c15InAlphabet(cfg.t)
 		}
+		// quick: length 5 everywhere, 6 for the client with limit 1; thorough: 7, 6 for limit 2
+		// (limit 2 is reachable from limit 1 anyway)
 		length := L
-		if cfg.lim == 2 && l.Thorough() {
-			length = L - 1 // limit 2 is reachable from limit 1 anyway
+		if l.Quick() && cfg.lim == 1 && !cfg.server {
+			length = L + 1
+		}
+		if l.Thorough() && cfg.lim == 2 {
+			length = L - 1
 		}
 		for first := range alpha {
 			if !l.Mine(idx) {
@@ -297,13 +303,13 @@ func TestVerifC15Seq(t *testing.T) {
 	}
 
 	// ---- random histories over the whole map
-	c15RandomPart(t, l, "mix", l.Pick(60000, 3000000))
+	c15RandomPart(t, l, "mix", l.Pick(200000, 4000000))
 }
 
 func TestVerifC15Fifo(t *testing.T) {
 	l := evlog.Open("C15")
 	defer l.Close()
-	c15RandomPart(t, l, "fifo", l.Pick(6000, 300000))
+	c15RandomPart(t, l, "fifo", l.Pick(20000, 600000))
 }
 
 func c15RandomPart(t *testing.T, l *evlog.Log, prof string, n int) {
@@ -327,10 +333,19 @@ func c15RandomPart(t *testing.T, l *evlog.Log, prof string, n int) {
 				if r.sig != "" {
 					x.trace = r.trace()
 				}
+				if i == 0 {
+					x.sample = map[string]any{"history": r.trace()["history"], "classes": r.classFP()}
+				}
 				res = append(res, x)
 			}
 		})
 		c15Report(c, res)
+		for _, x := range res {
+			if x.sample != nil {
+				c.Sample(prof+"-history", x.sample)
+				break
+			}
+		}
 		st["random_histories_"+prof] += batch
 		c15Flush(l, st)
 		c.End()
